@@ -28,6 +28,7 @@ typedef struct {
     uint8 b[MAXLEN];
     uint8 cls[MAXLEN];
     int   grp, share; /* alias group and length of the shared prefix */
+    int   hard;       /* hard alias group: duplicates of a special element are the same object */
 } elem_t;
 
 typedef struct {
@@ -47,6 +48,19 @@ static struct {
     int    readonly; /* file opened read-only after reopen(R) */
 } M;
 static int32 fid = FAIL;
+
+/* observation can run in "probe" mode: mismatches are captured, not reported */
+static int  g_quiet;
+static char g_quiet_detail[400];
+#define VIOL(sig, ...)                                                                                                              \
+    do {                                                                                                                            \
+        if (g_quiet) {                                                                                                              \
+            if (!g_quiet_detail[0])                                                                                                 \
+                snprintf(g_quiet_detail, sizeof g_quiet_detail, __VA_ARGS__);                                                       \
+        }                                                                                                                           \
+        else                                                                                                                        \
+            mc_violation(sig, __VA_ARGS__);                                                                                         \
+    } while (0)
 
 static uint16
 ref_of(int e)
@@ -70,14 +84,14 @@ check_element_content(int e, const char *where, int after_reopen)
     int32 aid = Hstartread(fid, TAG, ref_of(e));
     if (!m->exists) {
         if (aid != FAIL) {
-            mc_violation("ghost-element", "%s: Hstartread on deleted/nonexistent element %d succeeded", where, e);
+            VIOL("ghost-element", "%s: Hstartread on deleted/nonexistent element %d succeeded", where, e);
             Hendaccess(aid);
             return 1;
         }
         return 0;
     }
     if (aid == FAIL) {
-        mc_violation("missing-element", "%s: Hstartread(%d,%d) failed for an existing element (len %d)", where, TAG, ref_of(e), m->len);
+        VIOL("missing-element", "%s: Hstartread(%d,%d) failed for an existing element (len %d)", where, TAG, ref_of(e), m->len);
         return 1;
     }
     int bad = 0;
@@ -85,25 +99,32 @@ check_element_content(int e, const char *where, int after_reopen)
         /* defined, no data: reading must fail */
         int32 r = Hread(aid, 1, buf);
         if (r != FAIL) {
-            mc_violation("read-new-element", "%s: Hread on a never-written element returned %d", where, (int)r);
+            VIOL("read-new-element", "%s: Hread on a never-written element returned %d", where, (int)r);
             bad = 1;
         }
     }
     else {
         int32 ilen = -2;
         if (Hinquire(aid, NULL, NULL, NULL, &ilen, NULL, NULL, NULL, NULL) == FAIL || ilen != m->len) {
-            mc_violation("length", "%s: element %d reports length %d, model %d", where, e, (int)ilen, m->len);
+            VIOL("length", "%s: element %d reports length %d, model %d", where, e, (int)ilen, m->len);
             bad = 1;
         }
         int32 r = Hread(aid, 0, buf);
-        if (m->len == 0) {
+        int   has_unspec = 0;
+        for (int i = 0; i < m->len; i++)
+            if (m->cls[i] == CL_UNSPEC)
+                has_unspec = 1;
+        if (r == FAIL && has_unspec) {
+            /* reserved-but-never-written space may not physically exist yet: unspecified */
+        }
+        else if (m->len == 0) {
             if (r != 0 && r != FAIL) {
-                mc_violation("read-count", "%s: Hread(0) on empty element %d returned %d", where, e, (int)r);
+                VIOL("read-count", "%s: Hread(0) on empty element %d returned %d", where, e, (int)r);
                 bad = 1;
             }
         }
         else if (r != m->len) {
-            mc_violation("read-count", "%s: whole-element Hread(0) of element %d returned %d, true length %d", where, e, (int)r, m->len);
+            VIOL("read-count", "%s: whole-element Hread(0) of element %d returned %d, true length %d", where, e, (int)r, m->len);
             bad = 1;
         }
         else {
@@ -114,42 +135,43 @@ check_element_content(int e, const char *where, int after_reopen)
                 else if (m->cls[i] == CL_GAP && after_reopen)
                     exp = 0;
                 if (exp >= 0 && buf[i] != exp) {
-                    mc_violation(m->cls[i] == CL_W ? "content" : "gap-not-zero", "%s: element %d byte %d reads 0x%02x, expected 0x%02x (len %d)", where, e,
+                    VIOL(m->cls[i] == CL_W ? "content" : "gap-not-zero", "%s: element %d byte %d reads 0x%02x, expected 0x%02x (len %d)", where, e,
                                  i, buf[i], exp, m->len);
                     bad = 1;
                     break;
                 }
             }
             if (buf[m->len] != 0xEE) {
-                mc_violation("read-overrun", "%s: Hread wrote past the element length into the caller's buffer", where);
+                VIOL("read-overrun", "%s: Hread wrote past the element length into the caller's buffer", where);
                 bad = 1;
             }
         }
         if (!bad) {
             int32 hl = Hlength(fid, TAG, ref_of(e));
             if (hl != m->len) {
-                mc_violation("length", "%s: Hlength(element %d)=%d, model %d", where, e, (int)hl, m->len);
+                VIOL("length", "%s: Hlength(element %d)=%d, model %d", where, e, (int)hl, m->len);
                 bad = 1;
             }
         }
     }
     if (Hendaccess(aid) == FAIL) {
-        mc_violation("endaccess", "%s: Hendaccess of a fresh read handle failed", where);
+        VIOL("endaccess", "%s: Hendaccess of a fresh read handle failed", where);
         bad = 1;
     }
     return bad;
 }
 
+static int g_only_slot = -1;
 static int
 observe(const char *where)
 {
     int bad = 0;
     for (int s = 0; s < 2; s++) {
-        if (!M.s[s].open)
+        if (!M.s[s].open || (g_only_slot >= 0 && s != g_only_slot))
             continue;
         int32 t = Htell(M.s[s].aid);
         if (t != M.s[s].pos) {
-            mc_violation("tell", "%s: Htell(slot %d)=%d, model position %d", where, s, (int)t, M.s[s].pos);
+            VIOL("tell", "%s: Htell(slot %d)=%d, model position %d", where, s, (int)t, M.s[s].pos);
             bad = 1;
         }
         elem_t *m = &M.e[M.s[s].e];
@@ -157,28 +179,39 @@ observe(const char *where)
             int32 len = -2, posn = -2;
             uint16 t2 = 0, r2 = 0;
             if (Hinquire(M.s[s].aid, NULL, &t2, &r2, &len, NULL, &posn, NULL, NULL) == FAIL) {
-                mc_violation("inquire", "%s: Hinquire(slot %d) failed", where, s);
+                VIOL("inquire", "%s: Hinquire(slot %d) failed", where, s);
                 bad = 1;
             }
             else {
                 if (len != m->len) {
-                    mc_violation("inquire-length", "%s: Hinquire(slot %d) length %d, model %d", where, s, (int)len, m->len);
+                    VIOL("inquire-length", "%s: Hinquire(slot %d) length %d, model %d", where, s, (int)len, m->len);
                     bad = 1;
                 }
                 if (posn != M.s[s].pos) {
-                    mc_violation("inquire-posn", "%s: Hinquire(slot %d) position %d, model %d", where, s, (int)posn, M.s[s].pos);
+                    VIOL("inquire-posn", "%s: Hinquire(slot %d) position %d, model %d", where, s, (int)posn, M.s[s].pos);
                     bad = 1;
                 }
                 if (r2 != ref_of(M.s[s].e)) {
-                    mc_violation("inquire-ref", "%s: Hinquire(slot %d) ref %u, expected %u", where, s, r2, ref_of(M.s[s].e));
+                    VIOL("inquire-ref", "%s: Hinquire(slot %d) ref %u, expected %u", where, s, r2, ref_of(M.s[s].e));
                     bad = 1;
                 }
             }
         }
     }
-    for (int e = 0; e < NELEM && !bad; e++)
+    for (int e = 0; e < NELEM && !bad && g_only_slot < 0; e++)
         bad |= check_element_content(e, where, 0);
     return bad;
+}
+
+static int
+slot_special(int s)
+{
+    int16 sp = 0;
+    if (!M.s[s].open)
+        return 0;
+    if (Hinquire(M.s[s].aid, NULL, NULL, NULL, NULL, NULL, NULL, NULL, &sp) == FAIL)
+        return -1;
+    return sp;
 }
 
 /* -------------------------------------------------------------------- model helpers */
@@ -206,6 +239,20 @@ model_write(int e, int pos, int n, const uint8 *d)
         m->len = pos + n;
 }
 
+static void
+sync_hard(int e)
+{
+    elem_t *m = &M.e[e];
+    if (!m->hard)
+        return;
+    for (int o = 0; o < NELEM; o++)
+        if (o != e && M.e[o].exists && M.e[o].hard == m->hard) {
+            M.e[o].len = m->len;
+            memcpy(M.e[o].b, m->b, sizeof m->b);
+            memcpy(M.e[o].cls, m->cls, sizeof m->cls);
+        }
+}
+
 static int
 other_slot_on(int s)
 {
@@ -220,6 +267,8 @@ apply(const mc_op *op)
     int s = op->a[0];
     M.nops++;
     vfs_api_seq++;
+    int sp_before[2] = {slot_special(0), slot_special(1)};
+    int touched = -1; /* element whose bytes/length may have changed */
     switch (op->code) {
         case O_START: {
             int     e = op->a[1], mode = op->a[2];
@@ -307,6 +356,7 @@ apply(const mc_op *op)
                 mc_count("write_extended", 1);
             model_write(sl->e, sl->pos, n, d);
             sl->pos += n;
+            touched = sl->e;
             break;
         }
         case O_SEEK: {
@@ -354,6 +404,14 @@ apply(const mc_op *op)
             }
             int avail = m->len - sl->pos;
             int want  = n == 0 ? avail : (n < avail ? n : avail);
+            if (r == FAIL) {
+                int unspec = 0;
+                for (int i = 0; i < want; i++)
+                    if (m->cls[sl->pos + i] == CL_UNSPEC)
+                        unspec = 1;
+                if (unspec)
+                    break; /* reserved-but-never-written space: unspecified */
+            }
             if (want <= 0) {
                 if (r != FAIL && r != 0) {
                     mc_violation("read-count", "Hread(%d) at/after the end (pos %d, len %d) returned %d", n, sl->pos, m->len, (int)r);
@@ -382,6 +440,13 @@ apply(const mc_op *op)
             elem_t *m  = &M.e[sl->e];
             int     l  = op->a[1];
             int32   r  = Htrunc(sl->aid, l);
+            if (sl->canwrite && m->len > l && sp_before[s] > 0 && r == FAIL) {
+                /* genuine, recorded deviation: truncation is refused on special elements (see known_findings) */
+                mc_violation("trunc:refused-on-special", "Htrunc(%d) on a %s element of length %d is refused; plain elements accept it",
+                             l, sp_before[s] == SPECIAL_LINKED ? "linked-block" : sp_before[s] == SPECIAL_EXT ? "external" : "special", m->len);
+                mc_count("trunc_refused_on_special", 1);
+                break; /* nothing changed: keep exploring */
+            }
             if (!sl->canwrite || m->len <= l) {
                 if (r != FAIL) {
                     mc_violation("trunc:should-fail", "Htrunc(%d) on element of length %d (write handle=%d) returned %d", l, m->len, sl->canwrite, (int)r);
@@ -398,6 +463,7 @@ apply(const mc_op *op)
                 m->share = l;
             if (sl->pos > l)
                 sl->pos = l;
+            touched = sl->e;
             break;
         }
         case O_APPENDABLE:
@@ -462,6 +528,22 @@ apply(const mc_op *op)
                 return 1;
             }
             *n = *o;
+            {
+                /* is the duplicated element special (linked/external)? then both names are one object */
+                int16 sp  = 0;
+                int32 aid = Hstartread(fid, TAG, ref_of(oe));
+                if (aid != FAIL) {
+                    Hinquire(aid, NULL, NULL, NULL, NULL, NULL, NULL, NULL, &sp);
+                    Hendaccess(aid);
+                }
+                if (sp > 0) {
+                    if (!o->hard)
+                        o->hard = ++M.ngrp;
+                    n->hard = o->hard;
+                    mc_count("dup_of_special_element", 1);
+                    break;
+                }
+            }
             if (!o->grp) {
                 o->grp   = ++M.ngrp;
                 o->share = o->len < 0 ? 0 : o->len;
@@ -501,16 +583,28 @@ apply(const mc_op *op)
             mc_count(r == SUCCEED ? "setblockinfo_ok" : "setblockinfo_refused", 1);
             break;
         }
-        case O_HBCONVERT: {
-            int r = HBconvert(M.s[s].aid);
-            mc_count(r == SUCCEED ? "hbconvert_ok" : "hbconvert_refused", 1);
-            break;
-        }
         case O_GETELEM:
             break; /* observation only */
     }
+    if (touched >= 0)
+        sync_hard(touched);
     char where[64];
     snprintf(where, sizeof where, "after %s", opname[op->code]);
+    /* silent promotion through one handle while a second handle is attached to the same element */
+    for (int a = 0; a < 2; a++) {
+        int o = 1 - a;
+        if (M.s[a].open && M.s[o].open && M.s[a].e == M.s[o].e && sp_before[a] == 0 && slot_special(a) > 0 && sp_before[o] == 0) {
+            mc_count("promotion_with_second_handle", 1);
+            g_quiet = 1, g_quiet_detail[0] = 0, g_only_slot = o;
+            int bad = observe(where);
+            g_quiet = 0, g_only_slot = -1;
+            if (bad) {
+                mc_violation("second-handle-stale-after-promotion", "element E%d was promoted to linked blocks through slot %d while slot %d was attached: %s",
+                             M.s[a].e + 1, a, o, g_quiet_detail);
+                return 1;
+            }
+        }
+    }
     return observe(where);
 }
 
@@ -537,12 +631,27 @@ enum_ops(mc_op *out, int max)
         for (int e = 0; e < NELEM; e++) {
             if (e == 2 && M.scen != SC_PLAIN && M.scen != SC_DUPDEL)
                 continue;
+            int writer_present = 0; /* the API leaves two writers on one element to the caller's responsibility */
+            for (int q = 0; q < 2; q++)
+                if (M.s[q].open && M.s[q].e == e && M.s[q].canwrite)
+                    writer_present = 1;
+            int attached = 0;
+            for (int q = 0; q < 2; q++)
+                if (M.s[q].open && M.s[q].e == e)
+                    attached = 1;
+            if (M.e[e].exists && M.e[e].len < 0 && attached)
+                continue; /* a second handle on a defined-but-never-written element: contract silent */
             if (M.e[e].exists) {
                 ADD(O_START, freeslot, e, 0);
-                ADD(O_START, freeslot, e, 1);
-                ADD(O_START, freeslot, e, 2);
+                if (!M.readonly && !writer_present) {
+                    ADD(O_START, freeslot, e, 1);
+                    if (M.e[e].len >= 0)
+                        ADD(O_START, freeslot, e, 2);
+                }
+                else if (e == 0)
+                    ADD(O_START, freeslot, e, 1); /* must fail on a read-only file */
             }
-            else if (e == 2 && M.scen == SC_PLAIN) {
+            else if (e == 2 && M.scen == SC_PLAIN && !M.readonly) {
                 ADD(O_START, freeslot, e, 1);      /* define a new element without length */
                 ADD(O_STARTWRITE, freeslot, e, 3); /* new element with reserved length */
                 ADD(O_START, freeslot, e, 0);      /* must fail */
@@ -552,6 +661,14 @@ enum_ops(mc_op *out, int max)
     for (int s = 0; s < 2; s++) {
         if (!M.s[s].open)
             continue;
+        if (M.e[M.s[s].e].len < 0) {
+            /* defined, never written: only the operations whose meaning is documented for a new element */
+            ADD(O_WRITE, s, 3, 0);
+            ADD(O_SEEK, s, 0, DF_START);
+            ADD(O_READ, s, 2, 0);
+            ADD(O_END, s, 0, 0);
+            continue;
+        }
         ADD(O_WRITE, s, 1, 0);
         ADD(O_WRITE, s, 3, 0);
         if (thorough)
@@ -563,7 +680,7 @@ enum_ops(mc_op *out, int max)
         ADD(O_SEEK, s, -1, DF_CURRENT);
         ADD(O_READ, s, 0, 0);
         ADD(O_READ, s, 2, 0);
-        if (M.scen == SC_PLAIN || thorough) {
+        if (M.s[s].canwrite || M.scen == SC_PLAIN) {
             /* truncation: only where no second handle sits on the same element beyond the cut */
             if (!other_slot_on(s)) {
                 ADD(O_TRUNC, s, 2, 0);
@@ -577,7 +694,6 @@ enum_ops(mc_op *out, int max)
         if (M.scen == SC_CONVERT && M.s[s].canwrite) {
             ADD(O_HLCONVERT, s, M.blk, M.nblk);
             ADD(O_SETBLOCK, s, M.blk, M.nblk);
-            ADD(O_HBCONVERT, s, 0, 0);
         }
     }
     if (!M.s[0].open && !M.s[1].open) {
@@ -585,7 +701,7 @@ enum_ops(mc_op *out, int max)
         ADD(O_REOPEN, 0, 0, 0);
     }
     ADD(O_SYNC, 0, 0, 0);
-    if (M.scen == SC_DUPDEL && !M.s[0].open && !M.s[1].open) {
+    if (M.scen == SC_DUPDEL && !M.s[0].open && !M.s[1].open && !M.readonly) {
         for (int e = 0; e < NELEM; e++) {
             if (M.e[e].exists)
                 ADD(O_DEL, e, 0, 0);
